@@ -79,6 +79,7 @@ type RBr struct {
 	Policy       string `json:"policy,omitempty"`
 	Consistent   bool   `json:"consistent"`
 	StateReady   bool   `json:"state_ready"`
+	NotReady     string `json:"not_ready,omitempty"` // the batch state when not Ready: "" = Upgrading, "Verifying", "Empty"
 	Batch        int    `json:"batch"`
 	Completed    bool   `json:"completed"`
 	Deleting     bool   `json:"deleting"`
@@ -278,6 +279,9 @@ func (rolloutsmEngine) Gen(r *rand.Rand, idx int, tier string) any {
 	// the BatchRelease
 	if chance(r, 65) && (st.Phase == "Progressing" || st.Phase == "Terminating" || st.Phase == "Disabling") {
 		br := &RBr{RID: rid, FT: in.FT, Consistent: chance(r, 85), StateReady: chance(r, 60), Updated: r.Intn(n + 1), UpdatedReady: r.Intn(n + 1)}
+		if !br.StateReady {
+			br.NotReady = pick(r, "", "", "Verifying", "Verifying", "Empty")
+		}
 		for _, s := range in.Steps {
 			br.Batches = append(br.Batches, s.Replicas)
 		}
@@ -326,6 +330,9 @@ func (rolloutsmEngine) Gen(r *rand.Rand, idx int, tier string) any {
 		sub.State = pick(r, "StepUpgrade", "StepUpgrade", "StepUpgrade", "StepPaused", "StepReady", "BeforeStepUpgrade", "StepMetricsAnalysis")
 		st.Sub = sub
 		br := &RBr{RID: "v2", FT: in.FT, Consistent: chance(r, 80), StateReady: chance(r, 75), Updated: r.Intn(n + 1), UpdatedReady: r.Intn(n + 1)}
+		if !br.StateReady {
+			br.NotReady = pick(r, "", "", "Verifying", "Verifying", "Empty")
+		}
 		for _, s := range in.Steps {
 			br.Batches = append(br.Batches, s.Replicas)
 		}
@@ -413,6 +420,12 @@ func buildBR(in RInput, b *RBr) *v1beta1.BatchRelease {
 	}
 	br.Status.CanaryStatus.CurrentBatch = int32(b.Batch)
 	br.Status.CanaryStatus.CurrentBatchState = v1beta1.UpgradingBatchState
+	switch b.NotReady {
+	case "Verifying":
+		br.Status.CanaryStatus.CurrentBatchState = v1beta1.VerifyingBatchState
+	case "Empty":
+		br.Status.CanaryStatus.CurrentBatchState = ""
+	}
 	if b.StateReady {
 		br.Status.CanaryStatus.CurrentBatchState = v1beta1.ReadyBatchState
 	}
@@ -428,6 +441,7 @@ func readBR(br *v1beta1.BatchRelease) *RBr {
 	b := &RBr{RID: br.Spec.ReleasePlan.RolloutID, Policy: string(br.Spec.ReleasePlan.FinalizingPolicy), Deleting: br.DeletionTimestamp != nil,
 		RollbackAnno: br.Annotations[v1alpha1.RollbackInBatchAnnotation] != "", Batch: int(br.Status.CanaryStatus.CurrentBatch),
 		StateReady: br.Status.CanaryStatus.CurrentBatchState == v1beta1.ReadyBatchState, Completed: br.Status.Phase == v1beta1.RolloutPhaseCompleted,
+		NotReady: map[v1beta1.BatchReleaseBatchStateType]string{v1beta1.VerifyingBatchState: "Verifying", "": "Empty"}[br.Status.CanaryStatus.CurrentBatchState],
 		Updated: int(br.Status.CanaryStatus.UpdatedReplicas), UpdatedReady: int(br.Status.CanaryStatus.UpdatedReadyReplicas)}
 	b.Consistent = br.Status.ObservedReleasePlanHash == util.HashReleasePlanBatches(&br.Spec.ReleasePlan) && br.Generation == br.Status.ObservedGeneration
 	for _, x := range br.Spec.ReleasePlan.Batches {
@@ -456,6 +470,7 @@ type TRExt struct {
 	ZeroGrace  bool         `json:"zero_grace,omitempty"`
 	Pending    []TRPending  `json:"pending,omitempty"` // in-memory grace expectations at the start of the reconcile
 	FailGateway bool        `json:"fail_gateway,omitempty"` // every read of the gateway object (Ingress) fails during this reconcile
+	FailWlRead  bool        `json:"fail_wl_read,omitempty"` // the first read of the workload fails during this reconcile
 }
 type TRPending struct {
 	Action  string `json:"action"`
@@ -642,12 +657,13 @@ func reconcileRolloutWorld(in RInput, ext *TRExt, objs []client.Object, ro *v1be
 		}()
 		var err error
 		wl.failIngressAll = ext != nil && ext.FailGateway
+		wl.failWorkload = ext != nil && ext.FailWlRead
 		result, err = rec.Reconcile(context.TODO(), ctrl.Request{NamespacedName: types.NamespacedName{Namespace: "ns", Name: "ro"}})
 		if err != nil {
 			obs.Err = err.Error()
 		}
 	}()
-	wl.failIngressAll = false
+	wl.failIngressAll, wl.failWorkload = false, false
 	obs.Requeue = result.RequeueAfter > 0 || result.Requeue
 	after := &v1beta1.Rollout{}
 	if err := cli.Get(context.TODO(), types.NamespacedName{Namespace: "ns", Name: "ro"}, after); err != nil {
